@@ -32,6 +32,10 @@ pub struct ColSpec {
     /// NEW generation overflow while a reindex batch fills them (growth triggered from a batch, two
     /// generations pending at once)
     pub deep: bool,
+    /// with `collide`: every sixteenth key has ZERO in all the partial-key bits the vectorised page search compares
+    /// (hash bits 16..48) and differs from its likes only in the bits that search drops (48..50): the cases in which
+    /// the fast search must fall back to the exact one, on pages with freed slots
+    pub zeropk: bool,
     /// every value is stored as a chain of parts (> 32 KiB); values whose ids have the same parity share their
     /// first 40 % byte for byte, so that overwriting A by B by C regularly has C equal to A (and different from B)
     /// in whole 4 KiB parts
@@ -53,6 +57,7 @@ impl ColSpec {
             grow: j["grow"].as_bool().unwrap_or(false),
             collide: j["collide"].as_bool().unwrap_or(false),
             deep: j["deep"].as_bool().unwrap_or(false),
+            zeropk: j["zeropk"].as_bool().unwrap_or(false),
             multi: j["multi"].as_bool().unwrap_or(false),
             kind,
         }
@@ -181,6 +186,9 @@ impl Universe {
                     // separates the keys when the index grows to 17 / 18 bits (deep: to 19 / 20 bits)
                     k[2] = ((i % 4) as u8) << (if spec.deep { 4 } else { 6 });
                     k[3] = ((i / 4) % 4) as u8;
+                    if spec.zeropk && i % 16 == 0 {
+                        k[6] = (((i / 16) % 4) as u8) << 6;
+                    }
                     let tail = fill(&mut rng, 24, false);
                     k[8..].copy_from_slice(&tail);
                     k
